@@ -173,7 +173,7 @@ static void SCRAM_Hi(const struct hash_alg *alg,
 {
     size_t k;
     uint32_t j;
-    uint8_t tmp[128];
+    uint8_t tmp[SCRAM_SALT_MAX_LEN + 4];
 
     static uint8_t int1[] = {0x0, 0x0, 0x0, 0x1};
 
